@@ -281,7 +281,7 @@ PROPS = {
     },
     "C16": {
         "workload": "c16", "level": "exploration",
-        "quick": 320, "thorough": 6000,
+        "quick": 256, "thorough": 6000,
         "shrink_execs": 40, "shrink_wall": 240,
         "technique": "deterministic simulation of the cluster scheduler only: generated SGE/PBS/SLURM scripts are "
                      "checked with bash -n and executed as real bash/python child processes, one per array index, in "
